@@ -31,13 +31,13 @@ CHECKS = {
     "C01": ("Hypothesis-generated planted poses: analytic Gaussian-blob particles rendered into tomograms at (p*, R*), input molecules perturbed by (m, q_k) inside the search range; oracle = planted pose and features, for single/batch/group/mock/multi-template/template-free loaders",
             "Generated-input exploration against planted ground truth (position within 0.25 px, orientation within 1e-3 rad, shift/rotation/score features, template label, align_no_template == align(average)).",
             "blob templates (>= 3 blobs at radius >= 2.5 px, distinct amplitudes) contained in the inscribed ball; rotation sets >= 25 deg apart; equal-energy templates for the multi-template kind; isotropic (max, step) grids taken from acryo's own normalize_rotations", "4/C01"),
-    "C06": ("Hypothesis-generated planted (template j, rotation k, shift d) sub-volumes built analytically; oracle = planted labels/rotation/shift, score optimality against separately evaluated candidates, permutation metamorphic relation; loader/group routes on planted tomograms; (max, step) grids against the documented construction",
+    "C06": ("Hypothesis-generated planted (template j, rotation k, shift d) sub-volumes built analytically; oracle = planted labels/rotation/shift, score optimality against separately evaluated candidates, permutation metamorphic relation; loader/group routes on planted tomograms incl. a 375-candidate search; (max, step) grids against the documented construction",
             "Generated-input exploration with planted ground truth, a differential optimality oracle (full search == max over candidates evaluated alone), a metamorphic permutation relation, and a documented-grid oracle for (max, step) ranges.",
             "rotation sets contain the identity and are >= 25 deg apart; FSC not used (degenerate on band-limited blobs); PCC with unequal-energy templates is a recorded known finding; optimality oracle only for T*K <= 9", "4/C06"),
     "C05": ("Hypothesis-generated degenerate / unrelated / boundary sub-volumes x max_shifts classes (0, <0.75, off-grid, integer, > box, anisotropic) x models x rotation sets; loader-level routes with scalar/tuple/list/numpy-scalar limits; enumerated max_shifts spellings",
             "Generated-input exploration with a validity oracle: no exception, finite shift and score, |shift_i| <= max_shifts_i (model level) and displacement along the input molecule's own axes within max_shifts (loader level, all five alignment routes).",
             "FSC limited to max_shifts <= 3 px / boxes <= 10; rotation sets contain the identity; 0-d numpy arrays are not treated as a documented max_shifts spelling", "4/C05"),
-    "C07": ("Hypothesis-generated image pairs / masks / cutoffs / tilt models vs a float64 reference pipeline (mask, Butterworth, wedge, Pearson or cosine); metamorphic gain/offset invariance; differential score == landscape centre == zero-range align; landscape arg-max vs align shift on planted peaks; loader rows vs model",
+    "C07": ("Hypothesis-generated image pairs / masks / cutoffs / tilt models vs a float64 reference pipeline (mask, Butterworth, wedge, Pearson or cosine); metamorphic gain/offset invariance; differential score == landscape centre == zero-range align; integer-landscape arg-max vs align shift and upsampled-landscape nodes vs integer samples on planted peaks; loader rows vs model",
             "Generated-input exploration with a reference-model oracle (2e-4), metamorphic invariances and differential agreement between score, landscape and align for the normalised models; loader.score / construct_landscape rows against the model applied to subtomogram i.",
             "the wedge mask in the reference is the model's own (geometry is C08's); planted peaks >= 0.6 px inside the range with mild noise; FSC agreement limited to boxes <= 10", "4/C07"),
     "C09": ("Hypothesis-generated loaders (single/batch/group/mock, numpy or chunked dask) vs numpy means of the loaded subtomograms; split halves decoded from power-of-two constant blocks",
@@ -49,9 +49,9 @@ CHECKS = {
     "C17": ("Hypothesis-generated image pairs / shapes / shell widths vs a float64 per-shell reference; symmetry and rescaling metamorphic relations; loader-level tables recomputed from the returned half-maps and masks",
             "Generated-input exploration with a reference-model oracle per shell, metamorphic relations (symmetry, positive rescaling, self-correlation = 1) and a differential oracle at loader level (table == reference applied to the returned half-maps x mask; half-maps == average_split - mean; reproducibility; column names).",
             "shells below the single-precision noise floor and shells touched by exact boundary ties are skipped and counted", "4/C17"),
-    "C10": ("differential testing across dask schedulers (synchronous / threads 1-16 / harness-owned completion orders drawn by Hypothesis) and chunkings; cooperative thread scheduler with schedule points at the shared template cache driven by drawn schedules, all 2-thread schedules of length 8 enumerated; lazy vs computed shapes; preemption stress in the thorough tier",
-            "Exploration of harness-owned schedules: generated computations must give identical results under every scheduler / chunking, every drawn interleaving of threads sharing one model must reproduce the sequential results without error, and lazy arrays must report their computed shape. The 2-thread, length-8 schedule space over score is enumerated completely.",
-            "interleavings inside numpy/scipy/polars C code and free-threaded interpreters are not owned by the harness (only sampled by the stress engine); schedule points are the accesses to TemplateMaskCache._dict", "4/C10"),
+    "C10": ("differential testing across dask schedulers (synchronous / threads 1-16 / harness-owned completion orders drawn by Hypothesis) and chunkings; cooperative thread scheduler with schedule points at the shared template cache driven by drawn schedules, all 2-thread schedules of length 8 enumerated; single-preemption schedules A..B..A with interpreter-level (sys.settrace call/return/line) schedule points inside acryo frames, enumerated over every point for model- and loader-level task pairs; lazy vs computed shapes; preemption stress in the thorough tier",
+            "Exploration of harness-owned schedules: generated computations must give identical results under every scheduler / chunking, every drawn interleaving of threads sharing one model must reproduce the sequential results without error, and lazy arrays must report their computed shape. The 2-thread, length-8 schedule space over score and every single-preemption point of score/align/landscape (4 models, cold caches) are enumerated completely.",
+            "interleavings inside numpy/scipy/polars C code and free-threaded interpreters are not owned by the harness (only sampled by the stress engine); cooperative schedule points are the accesses to TemplateMaskCache._dict and attribute writes on the shared model; the settrace engine performs one hand-over per run", "4/C10"),
     "C14": ("Hypothesis-generated components / poses (grid-coincident, fractional, rotated, straddling, outside, negative) vs a float64 reference that evaluates each template at c + R^-1 (X - pos/scale); exact-paste, loader round trip, partition/order metamorphic relations, 2-D vs z-projection differential",
             "Generated-input exploration with a reference-model oracle for the whole volume, exact oracles for grid-coincident poses (paste and loader round trip) and metamorphic/differential relations (component and molecule order, additivity, simulate_2d == projection).",
             "template density confined to the inscribed ball minus 2 voxels; order-0 volumes are compared only for grid-coincident poses (nearest-neighbour ties)", "4/C14"),
